@@ -92,3 +92,59 @@ pub fn heap_index(i: usize) -> (r: usize) ensures r == 8 * i { unimplemented!() 
 pub assume_specification [<usize>::next_multiple_of] (a: usize, b: usize) -> (r: usize)
     requires b > 0, a + b - 1 <= usize::MAX
     ensures r >= a, r - a < b, r % b == 0;
+
+// ---- the heap as a byte sequence at an 8-aligned base (Heap::grow / with_cell_capacity allocate with align 8)
+#[verifier::external_body]
+pub struct Heap { _p: usize }
+impl Heap {
+    pub uninterp spec fn bytes(&self) -> Seq<u8>;
+    pub uninterp spec fn base(&self) -> int;
+    // `slice::from_raw_parts(self.inner.ptr.add(loc), self.inner.byte_len - loc)`
+    #[verifier::external_body]
+    pub fn bytes_from(&self, loc: usize) -> (r: &[u8])
+        requires loc <= self.bytes().len()
+        ensures r@ == self.bytes().skip(loc as int), slice_addr(r) == self.base() + loc, self.base() % 8 == 0, self.base() >= 0,
+                self.base() + self.bytes().len() + 16 <= usize::MAX { unimplemented!() }
+}
+// &str over a byte slice and its character iterator (TRUSTED UTF-8 facts: a character occupies 1..4 bytes,
+// NUL is the single byte 0, no other character starts with byte 0)
+#[verifier::external_body] pub struct StrS { _p: usize }
+impl StrS { pub uninterp spec fn b(&self) -> Seq<u8>; }
+#[verifier::external_body] pub fn str_of_bytes(s: &[u8]) -> (r: StrS) ensures r.b() == s@ { unimplemented!() }
+pub uninterp spec fn char_len_at(b: Seq<u8>, pos: int) -> int;     // byte length of the character starting at pos
+pub uninterp spec fn char_at(b: Seq<u8>, pos: int) -> char;        // that character
+pub uninterp spec fn clen(c: char) -> int;                          // char::len_utf8
+#[verifier::external_body] pub struct CharsS { _p: usize }
+impl StrS {
+    #[verifier::external_body] pub fn chars(&self) -> (r: CharsS) ensures r.b() == self.b(), r.pos() == 0 { unimplemented!() }
+}
+impl CharsS {
+    pub uninterp spec fn b(&self) -> Seq<u8>;
+    pub uninterp spec fn pos(&self) -> int;
+    #[verifier::external_body]
+    pub fn next(&mut self) -> (r: Option<char>)
+        requires 0 <= old(self).pos() <= old(self).b().len()
+        ensures
+            final(self).b() == old(self).b(),
+            old(self).pos() == old(self).b().len() ==> r is None && final(self).pos() == old(self).pos(),
+            old(self).pos() < old(self).b().len() ==> (
+                r == Some(char_at(old(self).b(), old(self).pos()))
+                && final(self).pos() == old(self).pos() + char_len_at(old(self).b(), old(self).pos())
+                && 1 <= char_len_at(old(self).b(), old(self).pos()) <= 4
+                && final(self).pos() <= old(self).b().len()
+                && clen(char_at(old(self).b(), old(self).pos())) == char_len_at(old(self).b(), old(self).pos())
+                && ((char_at(old(self).b(), old(self).pos()) == '\0') == (old(self).b()[old(self).pos()] == 0))
+                && (old(self).b()[old(self).pos()] == 0 ==> char_len_at(old(self).b(), old(self).pos()) == 1)
+                // continuation bytes are >= 0x80
+                && (forall|j: int| old(self).pos() < j < final(self).pos() ==> old(self).b()[j] != 0)),
+    { unimplemented!() }
+}
+pub trait CharLen { fn len_utf8_u(self) -> usize; }
+impl CharLen for char { #[verifier::external_body] fn len_utf8_u(self) -> (r: usize) ensures r == clen(self) { unimplemented!() } }
+pub trait UnwrapAbort<T> { fn unwrap_abort(self) -> T; }
+impl<T> UnwrapAbort<T> for Option<T> { #[verifier::external_body] fn unwrap_abort(self) -> (r: T) ensures self == Some(r) { unimplemented!() } }
+// cell constructors as uninterpreted functions of the index
+pub uninterp spec fn heap_loc(i: int) -> HeapCellValue;
+pub uninterp spec fn pstr_loc(i: int) -> HeapCellValue;
+#[verifier::external_body] pub fn heap_loc_as_cell(i: usize) -> (r: HeapCellValue) ensures r == heap_loc(i as int) { unimplemented!() }
+#[verifier::external_body] pub fn pstr_loc_as_cell(i: usize) -> (r: HeapCellValue) ensures r == pstr_loc(i as int) { unimplemented!() }
